@@ -137,6 +137,7 @@ def copy(a, **kw):
 def arange(start, stop=None, step=1, dtype=None):
     if stop is None:
         start, stop = 0, start
+    start, stop, step = (x.__index__() if getattr(type(x), "_fp", False) else x for x in (start, stop, step))
     vals = [wrap(x) for x in (start, stop, step)]
     if builtins.all(v._kind == "i" for v in vals):
         s0, s1, st = (_as_index(x) if isinstance(x, generic) else x for x in (start, stop, step))
